@@ -12,34 +12,9 @@ Record snap := SN {
   sn_rings : list Z; sn_steals : list Z;
   sn_final : bool }.            (* taken at "pool.dtor.end" (true) or at a quiescent point (false) *)
 
-(* Compact trace encoding (Coq parses one numeral per event much faster than a constructor term):
-   z = (((tid * 64 + code) * 1024 + (a+2)) * 1024 + (b+2)) * 1024 + (c+2),  fields a b c in [-2, 1021]; codes = positions in
-   props/pool_common.py CODES. *)
-Definition decode (z : Z) : nat * event :=
-  let c := z mod 1024 - 2 in
-  let z1 := z / 1024 in
-  let b := z1 mod 1024 - 2 in
-  let z2 := z1 / 1024 in
-  let a := z2 mod 1024 - 2 in
-  let z3 := z2 / 1024 in
-  let code := z3 mod 64 in
-  let tid := Z.to_nat (z3 / 64) in
-  let nzb := negb (a =? 0) in
-  (tid,
-   match code with
-   | 0 => EGen a | 1 => ELoadNumThreads nzb b | 2 => EAdd a b | 3 => ESub a b | 4 => EEnqCentral a b
-   | 5 => ERingPushFail a | 6 => ERingPushEnd a | 7 => EPushBatch a b | 8 => EStealPush a (negb (b =? 0))
-   | 9 => ELoadNumRings a b | 10 => EInline a | 11 => EPopCentral a b | 12 => EPopRing a b c | 13 => EPopSteal a b c
-   | 14 => EBodyBegin a | 15 => EBodyEnd a | 16 => EWorkerBegin a | 17 => EWorkerEnd a
-   | 18 => EResizeBegin a | 19 => EStopAll | 20 => EWakeAll | 21 => ECentralDone a | 22 => EJoinBegin | 23 => EJoinDone
-   | 24 => EDrainRing a b | 25 => ERingDone a | 26 => EDrainSteal a b | 27 => EStealDone a
-   | 28 => EStoreNumRings a | 29 => EStoreNumSteal a | 30 => EStoreNumThreads a | 31 => EThreadsStarted a
-   | 32 => EResizeEnd | 33 => EDtorBegin | _ => EDtorEnd
-   end).
-
 Record pcase := PC {
   c_n0 : Z; c_rcap : Z; c_scap : Z; c_share : Z;
-  c_enc : list Z;               (* encoded trace *)
+  c_trace : list (nat * event);
   c_counts : list Z;            (* invocations per task id *)
   c_snaps : list snap;
   c_hang : Z;                   (* task sets whose outstanding count was not zero at the final quiescent point *)
@@ -65,8 +40,6 @@ Definition snap_kind (sn : snap) : Z :=   (* which tier holds the stranded task:
 (* result: [accepted; first rejected index; snapshots agree; v01; v03; v08; stale kind; leaked at the end; stranded kind]
    v = 0 holds (and model agrees), 1 model and implementation disagree but the property holds on the implementation's output,
        2 property fails outside the known domain, 3 inconclusive (budget / deadlock), 4 property fails inside the known domain *)
-Definition c_trace (c : pcase) : list (nat * event) := map decode (c_enc c).
-
 Definition snap_empty (sn : snap) : bool :=
   (sn_central sn =? 0) && forallb (fun n => n =? 0) (sn_rings sn) && forallb (fun n => n =? 0) (sn_steals sn).
 
